@@ -61,7 +61,7 @@ def table_rows(ctx):
     return rows
 
 
-def clause_need(c, i, j, rng, shares, writes):
+def clause_need(c, i, j, rng, shares, writes, extra):
     """table clause -> need of the prog (+ the shares it reads and what the environment writes into them)"""
     def share(prefix, tagged):
         name = "%s%dx%d" % (prefix, i, j)
@@ -74,6 +74,20 @@ def clause_need(c, i, j, rng, shares, writes):
          "gt": c["goal"]["t"], "tol": c["tol"], "fl": rng.random() < 0.3, "tolzero": rng.random() < 0.3}
     if c["src"] == "share":
         n["share"] = share("s", c["state"])
+    if "gshape" in c:
+        # default-field rules of a goal taken from another share: the goal value is published at run time into the field
+        # the rules name (c["gfield"]); `other` is the explicit non-value field of the state (emit.MAIN)
+        fld = lambda f: "value" if f == "value" else emit.MAIN
+        if c["sf"] != "value":
+            extra["fielded"].append(n["share"])
+        g = share("g", c["goal"])
+        if c["gshape"] == 3:
+            extra["uninit"].append(g)
+        if c["gfield"] != "value":
+            extra["fielded"].append(g)
+        n["goal"] = g
+        n["gspell"] = fld(c["gspell"]) if c["gspell"] else ""
+        return n
     if c["gk"] == "lit":
         n["goal"] = c["goal"]["v"]
     else:
@@ -87,7 +101,7 @@ def clause_need(c, i, j, rng, shares, writes):
 def table_prog(rows, rng):
     """one house: an independent two-frame framer per row, `go yes if <need>` from the first frame"""
     prog = {"tick": TICK, "scale": SCALE, "qpu": QPU, "order": [], "framers": {}, "frames": {}, "shares": {}, "inputs": [],
-            "envvals": {}}
+            "envvals": {}, "fielded": [], "uninit": []}
     writes = []
     for i, row in enumerate(rows):
         f = "f%d" % i
@@ -97,7 +111,7 @@ def table_prog(rows, rng):
         prog["frames"][no] = gen.frame(f, "n%d" % i)
         prog["frames"][yes] = gen.frame(f, "y%d" % i)
         prog["frames"][yes]["enter"].append(gen.rec("y%d" % i))
-        needs = [clause_need(c, i, j, rng, prog["shares"], writes) for j, c in enumerate(row["cl"])]
+        needs = [clause_need(c, i, j, rng, prog["shares"], writes, prog) for j, c in enumerate(row["cl"])]
         prog["frames"][no]["precur"].append({"k": "go", "far": yes, "needs": needs, "transit": []})
     prog["inputs"] = [s for s, _ in writes]
     prog["envvals"] = {s: [v] for s, v in writes}
@@ -117,7 +131,8 @@ def row_kind(row):
     big = magnitude(c)
     # large operands: every distance between state and goal is its own kind (the band must not widen with magnitude)
     dist = (c["state"]["v"] - c["goal"]["v"]) if big and c["goal"]["t"] == "n" else 0
-    return (len(row["cl"]), c["k"], c["src"], c["state"]["t"], c["goal"]["t"], c["op"], c["neg"], c["gk"], c["tol"] != 0, big, dist)
+    return (len(row["cl"]), c["k"], c["src"], c["state"]["t"], c["goal"]["t"], c["op"], c["neg"], c["gk"], c["tol"] != 0, big, dist,
+            c.get("sf"), c.get("gshape"), c.get("gspell"))
 
 
 def select_rows(ctx, rows):
